@@ -542,7 +542,11 @@ class Interp:
                     return base._f[e.attr]
                 return ('$method', base, e.attr)
             if isinstance(base, tuple) and base and base[0] == '$name':
-                return ('$name', base[1] + '.' + e.attr)
+                full = base[1] + '.' + e.attr
+                consts = getattr(self, 'constants', None)
+                if consts and full in consts:
+                    return consts[full]
+                return ('$name', full)
             return ('$method', base, e.attr)
         if isinstance(e, ast.JoinedStr):
             out = ''
@@ -583,6 +587,14 @@ class Interp:
                 if fn in (max, min, sorted) and 'key' in kwargs and isinstance(kwargs['key'], Closure):
                     cl = kwargs['key']
                     kwargs['key'] = lambda x, cl=cl: self.call_closure(cl, [x], {})
+                if fn in (max, min, sorted) and isinstance(kwargs.get('key'), tuple) and kwargs['key'] and kwargs['key'][0] == '$method' \
+                        and isinstance(kwargs['key'][1], dict) and kwargs['key'][2] in ('get', '__getitem__'):
+                    # key=table.get: a bound method of a plain mapping
+                    kwargs['key'] = getattr(kwargs['key'][1], kwargs['key'][2])
+                # a function VALUE of the model that Python itself cannot call: the evaluator does not know, it must not guess
+                for v0 in list(args) + list(kwargs.values()):
+                    if isinstance(v0, tuple) and v0 and v0[0] in ('$method', '$name'):
+                        raise Unsupported('function value handed to a builtin')
                 return fn(*args, **kwargs)
             except (ValueError, TypeError, StopIteration) as ex:
                 raise Raised(type(ex).__name__)
@@ -623,7 +635,25 @@ class Interp:
             if short in CASTS and len(args) == 1 and not kwargs:
                 return args[0]
             if short == 'isinstance' and len(args) == 2:
-                raise Unsupported('isinstance in a finite model')
+                # modelled objects carry their class name; the classes asked for are names of the repository
+                ks = args[1] if isinstance(args[1], (tuple, list)) and not (args[1] and args[1][0] == '$name') else [args[1]]
+                names = []
+                for k0 in ks:
+                    if isinstance(k0, tuple) and k0 and k0[0] == '$name':
+                        names.append(k0[1].split('.')[-1])
+                    elif k0 in (str, int, list, set, tuple, dict, frozenset, bool):
+                        names.append(k0)
+                    else:
+                        raise Unsupported('isinstance in a finite model')
+                if isinstance(args[0], Obj):
+                    sup = getattr(self, 'superclasses', {}).get(args[0]._cls, ())
+                    return any(isinstance(n0, str) and (n0 == args[0]._cls or n0 in sup) for n0 in names)
+                pyts = tuple(n0 for n0 in names if not isinstance(n0, str))
+                if any(isinstance(n0, str) for n0 in names) and not isinstance(args[0], Obj):
+                    if pyts and isinstance(args[0], pyts):
+                        return True
+                    raise Unsupported('isinstance in a finite model')
+                return isinstance(args[0], pyts)
             if short in ('print', 'log'):
                 return None
             if short == 'defaultdict' and len(args) <= 1 and not kwargs:
